@@ -129,6 +129,16 @@ Inductive frames_of (v : variant) : list (list byte) -> list byte -> Prop :=
 | FO_cons m ms body rest : sdec v body = Some m -> nozero body = true ->
     frames_of v ms rest -> frames_of v (m :: ms) (body ++ [0%N] ++ rest).
 
+Lemma frames_of_snoc v ms w m body : frames_of v ms w -> sdec v body = Some m -> nozero body = true ->
+  frames_of v (ms ++ [m]) (w ++ body ++ [0%N]).
+Proof.
+  induction 1 as [|m0 ms0 b0 rest Hs Hz Hf IH]; intros Hsb Hzb.
+  - cbn [app]. rewrite <- (app_nil_r (body ++ [0%N])), <- app_assoc. constructor; [assumption|assumption|constructor].
+  - cbn [app]. rewrite <- !app_assoc. change ((m0 :: ms0) ++ [m]) with (m0 :: (ms0 ++ [m])).
+    replace (b0 ++ [0%N] ++ rest ++ body ++ [0%N]) with (b0 ++ [0%N] ++ (rest ++ body ++ [0%N])) by reflexivity.
+    constructor; [assumption|assumption|]. apply IH; assumption.
+Qed.
+
 Theorem enc_sequence v : variant_ok v -> forall msgs pre st0 cap0,
   idle_state st0 pre -> length pre <= cap0 ->
   let r := run_messages v st0 pre cap0 msgs in
